@@ -804,3 +804,53 @@ def r_rate_pairing(cx):
               "helmert_common: no per-tuple refresh of the form T + dt*DT and S + dt*DS found", cx.where(g.d["span"]))
     cx.count("R-RATE-PAIRING", "refresh_statements", pairs)
     cx.count("R-RATE-PAIRING", "stored", n)
+
+
+# ---------------------------------------------------------------------------------------------------------------------
+# R-ALIAS-GUARD (C07): the test that selects a scalar alias is a test of that alias
+
+@rule("R-ALIAS-GUARD", ["C07"])
+def r_alias_guard(cx):
+    """helmert::new takes each element from its scalar alias when that is given (non-zero) and from the list alias
+    otherwise: `if real(K)? != 0. { real(K)? } else { list[i] }`. The key tested and the key read in the guarded branch
+    are the same K - testing `rx` while reading `ry` drops a given `ry` whenever `rx` is zero."""
+    f = cx.f.fn("inner_op::helmert::new")
+    n = 0
+    for bb in sorted(f.reachable()):
+        t = f.term(bb)
+        if t["k"] != "switch":
+            continue
+        c = f.operand(t["discr"], f.end_point(bb))
+        if not (c[0] == "bin" and c[1] in ("Ne", "Eq") and _fzero(c[3])):
+            continue
+        kc = _keys_deep(f, c[2])
+        if len(kc) != 1:
+            continue
+        kcond = next(iter(kc))
+        false_bb = [b for v, b in t["targets"] if v == 0]
+        taken = t["otherwise"] if c[1] == "Ne" else (false_bb[0] if false_bb else None)
+        if taken is None:
+            continue
+        # reads of scalar parameters in the blocks reached from the taken side before the join
+        other = (false_bb[0] if false_bb else None) if c[1] == "Ne" else t["otherwise"]
+        region = f.reach_from([taken]) - (f.reach_from([other]) if other is not None else set())
+        keys = set()
+        for b2, t2 in f.calls():
+            if b2 in region and (f.callee(t2) or "") == K.PP + "::real":
+                k = K._const_key(f.arg_terms(b2)[1])
+                if k:
+                    keys.add(k)
+        if not keys:
+            continue
+        n += 1
+        ok = keys == {kcond}
+        cx.ob("R-ALIAS-GUARD", "new/%s" % kcond, ok,
+              "the scalar alias `%s` is used exactly when `%s` is given" % (kcond, kcond) if ok else
+              "helmert::new tests `%s` but reads %s in the guarded branch: a given %s is dropped or a missing one used, "
+              "depending on another parameter" % (kcond, ", ".join(sorted(keys)), ", ".join(sorted(keys - {kcond})) or kcond),
+              cx.where(t["span"]))
+    cx.count("R-ALIAS-GUARD", "guards", n)
+
+
+def _fzero(t):
+    return t[0] == "const" and isinstance(t[2], tuple) and t[2][0] == "float" and float(t[2][1]) == 0.0
